@@ -34,7 +34,7 @@ CLAIMED = {
             "the lexer's end-of-input marker lies outside the rune domain; emit rewrites token values only under a type test excluding TokenHTML and Val is the source slice input[start:pos]; one text node per HTML token holding that token, writing its Val changed only by flag-guarded trims; the comment tag's parser reaches no parsing function and its node does nothing; the templatetag table equals the specification and the node writes the looked-up value; tokenize() runs only on the !inVerbatim edge; after every switch into or out of verbatim mode the scanning loop restarts at its head before another rune is consumed",
             "lexer span arithmetic over arbitrary bytes, the concatenation homomorphism, the lexer's acceptance of every other verbatim placement as observed output", "DESIGN.md §3 C06"),
     "C09": ("effect analysis restricted to cycle/ifchanged nodes, path-guard polarity rules, loop-shape rules and linear-form (a*idx+b*count+c) evaluation of stored values over go/ssa",
-            "cycle/ifchanged keep state only in the execution context; ifequal/ifnotequal compare (first, second) and run then/else on opposite edges; if runs wrappers[i] on conditions[i] true and the else body only after the last false condition; firstof prints only a true argument and stops; for runs body/empty in their own callbacks with reversed/sorted in place; forloop fields equal their reference linear forms and conditions; IterateOrder passes an item-stepping induction variable and the item count; ifchanged evaluates all watched expressions without early exit and then replaces the remembered list",
+            "cycle/ifchanged keep state only in the execution context; ifequal/ifnotequal compare (first, second) and run then/else on opposite edges; if runs wrappers[i] on conditions[i] true and the else body only after the last false condition; firstof prints only a true argument and stops; for runs body/empty in their own callbacks with reversed/sorted in place; forloop fields equal their reference linear forms and conditions; IterateOrder passes an item-stepping induction variable and the item count; ifchanged evaluates all watched expressions without early exit and then replaces the remembered list, remembering copies rather than the evaluated *Value",
             "element order under reversed/sorted, nesting arithmetic, the rendered text", "DESIGN.md §3 C09"),
     "C16": ("provenance/pairing rules on Error and Token constructions, role-derived field anchors, path-guard rules on the lexer's column bookkeeping over go/ssa",
             "every compile-time Error construction sets a non-empty Filename; Line and Column always come from Line/Col of the same token, Error.Token is that token and execution errors take Filename from it; lexer tokens record the start-position fields (reset by emit/ignore from the running position) and the lexer's name; next/backup move pos and col by the same width and the column restarts consistently at a newline",
